@@ -5,6 +5,8 @@ import (
 	"strconv"
 	"sync"
 	"sync/atomic"
+
+	"github.com/form3tech-oss/f1/v2/internal/verifhook"
 )
 
 func newContinuousPool(m *PoolManager, numWorkers int) *ContinuousPool {
@@ -61,6 +63,7 @@ func (p *ContinuousPool) startWorker(
 
 	// use and atomic.Bool to control execution to avoid mutex usage in channels and context.Context
 	for !p.stopWorkers.Load() {
+		verifhook.Yield("cpool.worker.beforeNext")
 		iteration, err := p.manager.NextIteration()
 		if err != nil {
 			p.maxIterationsReached()
